@@ -16,6 +16,7 @@ mod c02;
 mod c14;
 mod c12;
 mod c05;
+mod c03;
 
 use std::path::PathBuf;
 
@@ -80,6 +81,7 @@ fn main() {
         "c14" => c14::run(&args),
         "c12" => c12::run(&args),
         "c05" => c05::run(&args),
+        "c03" => c03::run(&args),
         "c06" => c06::run(&args),
         "c16" => c16::run(&args),
         "c10" => c10::run(&args),
